@@ -146,7 +146,9 @@ pub fn classify_vm_error(e: &gluon::vm::Error, text: &str) -> String {
 }
 
 pub fn classify_panic_text(m: &str) -> String {
-    if m.starts_with("ICE") || m.contains("ICE:") {
+    if m.starts_with("ICE") || m.contains("ICE:") || m.contains("Please report an issue at https://github.com/gluon-lang/gluon/issues") {
+        // ice!() texts, including the ones of Getable when a primitive is handed a value of the
+        // wrong shape and the panic is turned into the primitive's error
         "ice".into()
     } else if m.contains("Arithmetic overflow") || m.contains("overflow") && m.contains("rithmetic") {
         "arith".into()
@@ -172,6 +174,11 @@ pub const SHAPE_COMPLAINTS: &[&str] = &[
     "Expected excess",
     "not a closure",
     "Stack push out of bounds",
+    // a primitive was handed a value of another shape than its type (ice! in Getable)
+    "ValueRef is not",
+    "expected ValueRef to be",
+    "Value is not an array",
+    "Please report an issue at https://github.com/gluon-lang/gluon/issues",
 ];
 
 pub fn is_shape_complaint(m: &str) -> Option<&'static str> {
